@@ -1,7 +1,7 @@
 """C02 rules: R-EXPIRE-X1 lazy expiry on every lookup, X2 sweeper re-check, X3 who writes a
 deadline / TTL travels or is dropped as prescribed, X4 index in step."""
 import re
-from facts import callee, op_local, op_place
+from facts import callee, op_local, op_place, op_is_const
 import cfg, shared, prov
 from shared import ENGINE, SHARD_MAP
 
@@ -204,3 +204,36 @@ def rule_x4(ctx, R):
             if not ok:
                 R.finding(fn, "deadline-cleared:no-index-remove", "deadline cleared (line %d) without removing the expiry-index entry" % b.bb_line(i), b.loc(i))
     R.floor("deadline_sites", n)
+
+
+EXP_INDEX = "storage::engine::DatabaseShard.expiring_keys"
+INDEX_READ = re.compile(r"^std::collections::HashMap::<std::vec::Vec<u8>, std::time::Instant>::(get|get_mut|iter|iter_mut|contains_key|values|values_mut|keys|get_key_value|drain|retain|into_iter|entry)(::<.*>)?$"
+                        r"|as std::iter::IntoIterator>::into_iter$")
+
+
+def rule_index_read(ctx, R):
+    """the expiry index is a hint for the sweeper and can be stale (RENAME moves a value with its
+    TTL, SET over a key drops the TTL, without touching the index; the sweeper re-checks, X2): a
+    deadline that is reported, persisted or acted on must come from the stored value's own
+    metadata -- nobody but the sweeper reads the contents of the index"""
+    n = 0; readers = {}
+    for fn, b in sorted(ctx.prog.bodies.items()):
+        if not fn.startswith("storage::") or "::tests::" in fn:
+            continue
+        for i, t in b.calls():
+            f = t["f"] or ""
+            if not INDEX_READ.search(f) or not t["a"] or op_is_const(t["a"][0]) or b.bbs[i].get("cleanup"):
+                continue
+            P = prov.operand_origins(b, t["a"][0])
+            if EXP_INDEX not in P.fields:
+                continue
+            n += 1
+            readers.setdefault(fn, []).append(i)
+    for fn, sites in sorted(readers.items()):
+        b = ctx.prog.bodies[fn]
+        ok = fn == SWEEPER or fn.startswith(SWEEPER + "::")
+        R.inst(fn, "expiry-index-read", {"function": fn, "sites": len(sites), "is_sweeper": ok})
+        if not ok:
+            R.finding(fn, "expiry-index-read:outside-sweeper",
+                      "%s reads a deadline from the shard's expiry index (line %d); the index is only a sweeper hint and goes stale on RENAME / SET over a key with a TTL, so the deadline used here can belong to another incarnation of the key" % (fn.split("::")[-1], b.bb_line(sites[0])), b.loc(sites[0]))
+    R.floor("expiry_index_reads", n)
